@@ -302,6 +302,20 @@ fn check_walk(v: &[EstTime], path: &[usize], links: &[Link], origins: &[u32], de
             cx.fail(tag("route|not-contiguous"), format!("segment {} does not follow {} in the network (walk {arrives:?})", wdw[1], wdw[0]));
         }
     }
+    // route-faithfulness in metres: the distance covered along the walk (a node's dist_to_next
+    // on its primary edge, nothing on an alternate edge — as for the times) cannot exceed the
+    // length of the segments the walk enters
+    let mut covered = 0.0f64;
+    for k in 0..path.len().saturating_sub(1) {
+        let (p, n) = (path[k], path[k + 1]);
+        if v[p].idx_next as usize == n {
+            covered += v[p].dist_to_next.value;
+        }
+    }
+    let route_len: f64 = arrives.iter().map(|l| links[*l as usize].length.value).sum();
+    if covered.is_finite() && covered > route_len + 1.0 {
+        cx.fail(tag("route|walk-covers-more-distance-than-the-segments-it-enters"), format!("walk over {arrives:?}: sum of dist_to_next {covered} m, segments {route_len} m"));
+    }
     // clears are a prefix of arrives (FIFO); complete when the destination is longer than the train
     if clears.len() > arrives.len() || clears.iter().zip(arrives.iter()).any(|(c, a)| c != a) {
         cx.fail(tag("route|clear-order-differs-from-arrive-order"), format!("arrives {arrives:?} clears {clears:?}"));
